@@ -67,7 +67,8 @@ class ApplyHistory(Machine):
                        "batch_middle_fails", "batch_gt_n", "batch_not_dividing", "exception_then_success",
                        "mask_checked", "apply_shape", "constrain_batched", "set_target_between_applies",
                        "out_of_domain_mix", "apply_on_copy", "integer_dtype_buffer", "non_contiguous_view_input", "pseudoinverse_of_used_transform",
-                       "parameters_updated_in_place_between_applies", "earlier_result_still_valid")
+                       "parameters_updated_in_place_between_applies", "earlier_result_still_valid",
+                       "composition_result_discarded_between_applies")
 
     @classmethod
     def swarm(cls, rng, tier):
@@ -96,7 +97,9 @@ class ApplyHistory(Machine):
             return {"op": "refill", "b": rng.randrange(64), "seed": rng.getrandbits(32), "mix": rng.choice([0, 0, 1, 2])}
         if r < 0.90:
             return {"op": "set_target", "t": rng.randrange(64), "seed": rng.getrandbits(32)}
-        if r < 0.915:
+        if r < 0.905:
+            return {"op": "compose_noise", "t": rng.randrange(64), "seed": rng.getrandbits(32)}
+        if r < 0.92:
             return {"op": "update", "t": rng.randrange(64), "seed": rng.getrandbits(32)}
         if r < 0.935:
             return {"op": "copy", "t": rng.randrange(64), "dst": rng.randrange(64)}
@@ -285,6 +288,26 @@ class ApplyHistory(Machine):
         e["recipe"] = (kind, seed, op["seed"])
         e["t"].set_target(PointCloud(self._target(op["seed"])))
         e["retargeted"] = True
+
+    def _op_compose_noise(self, op):
+        """A non-in-place composition whose result is thrown away: the receiver must be unaffected (judged by the
+        next apply against a fresh transform)."""
+        if not self.ts:
+            return
+        e = self.ts[op["t"] % len(self.ts)]
+        other = gen.homog_transform(["Translation", "Affine", "UniformScale"][op["seed"] % 3], op["seed"], 2)
+        try:
+            if op["seed"] & 8:
+                e["t"].compose_before(other)
+            else:
+                e["t"].compose_after(other)
+            if op["seed"] & 16:
+                c = e["t"].copy()
+                if hasattr(c, "compose_before_inplace") and isinstance(c, TransformChain):
+                    c.compose_before_inplace(other)
+            self.ctx.probe("composition_result_discarded_between_applies")
+        except Exception:
+            pass
 
     def _op_update(self, op):
         """In-place parameter update (from_vector_inplace) of a long-lived, already applied transform."""
